@@ -240,6 +240,7 @@ def gen_case(rng, dtypes):
             case["index"] = {"kind": "int", "vals": [int(x) for x in rng.permutation(case["n"]) + 10]}
         if case["mask"] is not None and case["mask"]["kind"] == "bool_series":
             case["mask"]["kind"] = "bool"
+    common.add_route(rng, case, 0.2)
     return case
 
 
